@@ -154,8 +154,8 @@ impl QoSController {
     }
 
     pub fn add_resource(&mut self, resource: ResourceStructure) {
-        self.number_of_resources += 1;
-        self.length += resource.len() as u16;
+        self.number_of_resources = self.number_of_resources.checked_add(1).unwrap();
+        self.length = self.length.checked_add(resource.len() as u16).unwrap();
         self.resource_structure.push(resource);
     }
 }
@@ -203,6 +203,7 @@ pub struct ResourceStructure {
 impl ResourceStructure {
     pub fn new(resource_type: ResourceType, resource_flags: u16, resource_id: ResourceID) -> Self {
         let length = size_of::<u8>() * 3 + size_of::<u16>() * 2 + resource_id.len();
+        assert!(length <= u16::MAX as usize);
 
         Self {
             resource_type,
